@@ -142,12 +142,31 @@ func (n *node) restart() string {
 		cs = consensus.NewState(cfg.DefaultConsensusConfig(), state.Copy(), n.be, n.bs, mpmock.Mempool{}, sm.EmptyEvidencePool{})
 	}()
 	if msg != "" {
-		return classifyHandover(msg)
+		return classifyHandover(msg) + n.tipQ(state)
 	}
 	n.stopNet()
 	n.cs = cs
 	n.reactor(state)
 	return fmt.Sprintf("ok h=%d", n.pool.VerifView().Height)
+}
+
+// tipQ: does the stored seen commit of the state's last block carry real for-block signatures of
+// more than 2/3 of LastValidators (independent check with the public keys)?
+func (n *node) tipQ(state sm.State) string {
+	sc := n.bs.LoadSeenCommit(state.LastBlockHeight)
+	vs := state.LastValidators
+	ok := false
+	if sc != nil && vs != nil && len(sc.Signatures) == len(vs.Validators) {
+		var got int64
+		for i, v := range vs.Validators {
+			s := sc.Signatures[i]
+			if s.ForBlock() && v.PubKey.VerifySignature(sc.VoteSignBytes(chainID, int32(i)), s.Signature) {
+				got += v.VotingPower
+			}
+		}
+		ok = 3*got > 2*vs.TotalVotingPower()
+	}
+	return fmt.Sprintf(" tipq=%v", ok)
 }
 
 func (n *node) stopNet() {
@@ -336,7 +355,7 @@ func (n *node) op(op string) string {
 			return "not-connected"
 		}
 		b := n.ch.build(spec)
-		if idTok(blockIDOf(b)) != m["id"] || idTok(b.LastBlockID) != m["prev"] {
+		if !spec.malformed() && (idTok(blockIDOf(b)) != m["id"] || idTok(b.LastBlockID) != m["prev"]) {
 			return "desc-mismatch"
 		}
 		pb, err := b.ToProto()
@@ -508,7 +527,11 @@ func (n *node) op(op string) string {
 			return "state-error"
 		}
 		if state.LastBlockHeight > 0 {
-			return classifyHandover(consensus.VerifReconstructLastCommit(n.cs, state))
+			r := classifyHandover(consensus.VerifReconstructLastCommit(n.cs, state))
+			if r != "ok" {
+				r += n.tipQ(state)
+			}
+			return r
 		}
 		return "ok"
 	}
